@@ -45,6 +45,24 @@ theorem invalidated (s : State) (v : Val) (id g : Nat)
       right; omega
   simp [this]
 
+/-- **derived references**: reading a reference-typed field / element / entry *through another
+reference* (`holderRef.ref`, `refsRef[0]`; the evaluator applies `mkRef` to the member it read) yields a
+reference to the same cell carrying the generation the *stored* reference recorded — in whatever heap
+`h'` it is derived, before or after the move; the derivation never refreshes the generation.  Hence the
+derived reference is invalidated by a move of the referent or of a resource the referent is nested in
+exactly like the stored one (also under an optional wrapper). -/
+theorem derived_invalidated (s : State) (v : Val) (id g : Nat) (h' : Heap)
+    (hres : isResVal s.heap v = true)
+    (hreach : resReach (heapFuel s) s.heap v id)
+    (hg : g ≤ cellGen s.heap id) :
+    mkRef h' (.ref (.ptr id) g) = .ref (.ptr id) g ∧
+    mkRef h' (.some (.ref (.ptr id) g)) = .some (.ref (.ptr id) g) ∧
+    (deref (mkRef h' (.ref (.ptr id) g)) (transfer v s).st).out = .userErr .invalidatedRef := by
+  refine ⟨by simp [mkRef], by simp [mkRef], ?_⟩
+  have e : mkRef h' (.ref (.ptr id) g) = .ref (.ptr id) g := by simp [mkRef]
+  rw [e]
+  exact (invalidated s v id g hres hreach hg).2
+
 /-- **invalidated (destroy)**: a reference to a destroyed (dead) cell fails on use, whatever generation
 it recorded. -/
 theorem invalidated_dead (s : State) (id g : Nat) (c : Cell)
@@ -141,5 +159,11 @@ example : resReach 18 h0 (.ptr 1) 0 := by
 
 example : ¬ resReach 18 h0 (.ptr 0) 1 := by
   simp [resReach, resReachL, h0, Obj.vals]
+
+/-- non-vacuity of `derived_invalidated`: a reference to the nested resource 0, derived again in the
+heap after the move of resource 1, is still the generation-0 reference and fails there -/
+example : mkRef (bumpVal 18 h0 (.ptr 1)) (.ref (.ptr 0) 0) = .ref (.ptr 0) 0 ∧
+    refValid (bumpVal 18 h0 (.ptr 1)) (.ptr 0) 0 = false :=
+  ⟨by simp [mkRef], by decide⟩
 
 end Verif.Properties.C04
